@@ -644,10 +644,15 @@ fn build_lists<'a>(
 
 fn list_item<'a>(s: &'a SimpleTerm<'a>, d: &'a PrettifiableDataset) -> Option<&'a SimpleTerm<'a>> {
     let mut ret = None;
+    let mut nb_rest = 0;
     for q in d.quads_matching([s], Any, Any, Any) {
         let q = q.unwrap();
         if rdf::rest == q.p() {
-            continue;
+            // a well-formed list node has exactly one rdf:rest
+            nb_rest += 1;
+            if nb_rest > 1 {
+                return None;
+            }
         } else if rdf::first == q.p() && ret.is_none() {
             ret = Some(q.o());
         } else {
